@@ -11,7 +11,6 @@ package main
 import (
 	"bufio"
 	"fmt"
-	"io"
 	"path"
 	"strings"
 
@@ -775,65 +774,8 @@ func c10DebControl(r *rt.Run) {
 	r.Probe("control-file-of-a-deb")
 }
 
-// c10Stream: several documents follow each other in ONE stream, and the caller
-// reads them one after the other through ONE bufio.Reader of bufio's default
-// size or larger (the typed parsers take a *bufio.Reader so that this works:
-// each consumes its own document and leaves the rest to the caller).
-func c10Stream(r *rt.Run) {
-	t := r.T
-	n := 2 + t.Draw(2, "c10.stream.n")
-	var models []mDSC
-	var sb strings.Builder
-	for i := 0; i < n; i++ {
-		src := genPkgName(t, "c10.stream.src") + fmt.Sprintf("%c", 'a'+i)
-		m := genDSC(t, "c10.stream.dsc", src, []string{src}, depOpts{MaxRels: 2})
-		models = append(models, m)
-		sb.WriteString(m.render())
-		sb.WriteString("\n")
-	}
-	trailer := "Trailing-Data: the caller reads this itself\n"
-	sb.WriteString(trailer)
-	rd := simio.NewReader(r, "stream", []byte(sb.String()))
-	br := bufio.NewReaderSize(rd, []int{4096, 8192, 65536}[t.Draw(3, "c10.stream.bufsize")])
-	var got []*control.DSC
-	var err error
-	var rest []byte
-	task := r.Solo("parser", func() {
-		for i := 0; i < n; i++ {
-			var d *control.DSC
-			if d, err = control.ParseDsc(br, fmt.Sprintf("/x/%d.dsc", i)); err != nil {
-				return
-			}
-			got = append(got, d)
-		}
-		rest, _ = io.ReadAll(br)
-	})
-	if taskTrouble(r, "C10", "dsc/stream", task) {
-		return
-	}
-	r.Probe("documents-read-one-after-the-other-from-one-bufio-reader")
-	if err != nil {
-		r.Violate("C10/parse-error", "dsc/several-documents-in-one-stream", "document %d of %d read through the caller's bufio.Reader: %v", len(got)+1, n, err)
-		return
-	}
-	for i, d := range got {
-		if d.Source != models[i].Source || !verEq(d.Version, models[i].Version) {
-			r.Violate("C10/field-mismatch", "dsc/several-documents-in-one-stream", "document %d of %d: Source=%q Version=%v, written %q %s", i+1, n, d.Source, d.Version, models[i].Source, models[i].Version.Text)
-			return
-		}
-	}
-	if strings.TrimSpace(string(rest)) != strings.TrimSpace(trailer) {
-		r.Violate("C10/field-mismatch", "dsc/bytes-after-the-documents", "after %d documents the caller's reader holds %q, the stream goes on with %q", n, clip(string(rest), 120), strings.TrimSpace(trailer))
-	}
-}
-
 func runC10(r *rt.Run, tier string) {
 	t := r.T
-	if t.Bool(1, 14, "c10.part-stream") {
-		r.Stats["part.documents-in-one-stream"]++
-		c10Stream(r)
-		return
-	}
 	if t.Bool(1, 10, "c10.part-debcontrol") {
 		r.Stats["kind.deb-control"]++
 		c10DebControl(r)
@@ -893,5 +835,5 @@ func init() {
 		},
 		Assumptions: []string{"the .deb control file kind of this property is exercised by C14's check", "two-part architecture names are compared on OS and CPU only"},
 	})
-	propProbes["C10"] = []string{"documents-read-one-after-the-other-from-one-bufio-reader", "control-file-of-a-deb", "GetDSC", "same-kind-decoded-by-concurrent-callers-first-thing-in-the-run", "relative-names-after-a-change-of-directory", "clearsigned-document", "several-document-kinds-in-one-run", "line-longer-than-4096-bytes", "caller-bufio-smaller-than-4096", "via-file-entry-point"}
+	propProbes["C10"] = []string{"control-file-of-a-deb", "GetDSC", "same-kind-decoded-by-concurrent-callers-first-thing-in-the-run", "relative-names-after-a-change-of-directory", "clearsigned-document", "several-document-kinds-in-one-run", "line-longer-than-4096-bytes", "caller-bufio-smaller-than-4096", "via-file-entry-point"}
 }
